@@ -65,6 +65,7 @@ macro_rules! add_expansion {
                 2 => rng.below(100),
                 _ => rng.below(1000),
             };
+            let pre = if faults_full { pre } else { pre % 7 };
             for _ in 0..pre {
                 let dl = if rng.chance(1, 2) { 4 } else { 6 };
                 let mut d = rng.bytes(dl);
@@ -631,6 +632,7 @@ pub fn wrath_sample(rep: &mut Rep, rng: &mut Rng, sample: u64, faults_full: bool
         2 => rng.below(100),
         _ => rng.below(1000),
     };
+    let pre = if faults_full { pre } else { pre % 7 };
     for _ in 0..pre {
         let mut d = rng.bytes(6);
         let mut w = d.clone();
@@ -1291,7 +1293,7 @@ distinct = distinct (route, direction, header kind) and (header kind, offset, er
         .to_string();
     let samples: u64 = match tier {
         "quick" => 200,
-        "thorough" => 20_000,
+        "thorough" => 100_000,
         _ => 1,
     };
     let shards = 64usize.min(samples as usize).max(1);
@@ -1302,18 +1304,19 @@ distinct = distinct (route, direction, header kind) and (header kind, offset, er
         for i in 0..per {
             let sample = (sh * per + i) as u64;
             let mut r1 = Rng::new(seed ^ 0x11, sample * 3);
-            vanilla_sample(&mut rep, &mut r1, sample, true, seed);
+            let full = tier != "miri";
+            vanilla_sample(&mut rep, &mut r1, sample, full, seed);
             let mut r2 = Rng::new(seed ^ 0x11, sample * 3 + 1);
-            tbc_sample(&mut rep, &mut r2, sample, true, seed);
+            tbc_sample(&mut rep, &mut r2, sample, full, seed);
             let mut r3 = Rng::new(seed ^ 0x11, sample * 3 + 2);
-            wrath_sample(&mut rep, &mut r3, sample, true, seed);
+            wrath_sample(&mut rep, &mut r3, sample, full, seed);
             rep.count("samples_per_expansion", 1);
             let _ = &mut rng;
         }
         rep
     });
     total.merge(r);
-    total.exhaustive = Some(true);
+    total.exhaustive = Some(tier != "miri");
     total.note("fault enumeration complete per sample: every offset x error kind x fragmentation x interruption for header kinds V/TBC server4, V/TBC client6, Wrath client6, Wrath server4, Wrath server5".to_string());
     let _ = seed;
     total
